@@ -538,7 +538,6 @@ Proof.
     destruct (IH _ _ H) as [A [B C]]. split; [exact A|split].
     + intro F. apply B. apply Forall_app. split; auto. constructor; auto. apply goodn_tests. auto.
     + intros x Hx. destruct (C x Hx) as [D|D]; auto. apply in_app_or in D. destruct D as [D|[D|[]]]; auto.
-      subst. right; left; reflexivity.
 Qed.
 
 Lemma split_on_aux_notin c s : forall cur, ~ In c cur ->
@@ -547,7 +546,7 @@ Proof.
   induction s as [|a s IH]; simpl; intros cur Hc x Hx.
   - destruct Hx as [<-|[]]. rewrite <- in_rev. assumption.
   - destruct (a =? c)%N eqn:E.
-    + destruct Hx as [<-|Hx]; [rewrite <- in_rev; assumption|]. eapply IH; eauto.
+    + destruct Hx as [<-|Hx]; [rewrite <- in_rev; assumption|]. eapply IH; [|exact Hx]. intros [].
     + eapply IH; [|eassumption]. apply N.eqb_neq in E. intros [H|H]; congruence.
 Qed.
 Lemma comps_noslash s x : In x (comps s) -> ~ In ch_slash x.
@@ -662,9 +661,9 @@ Proof.
     simpl in Hl. rewrite <- app_assoc, strip_prefix_app in Hl. inversion Hl; subst loc. clear Hl.
     apply in_or_app; right. apply in_or_app; right.
     destruct segs as [|n r].
-    + simpl. apply in_map_iff. exists i. auto.
+    + apply in_map_iff. exists i. split; [reflexivity|assumption].
     + rewrite join_slash_snoc by discriminate. apply in_map_iff. exists i. split; [|assumption].
-      unfold base_of. simpl. rewrite <- app_assoc. reflexivity.
+      reflexivity.
   - destruct (listing_cases f (s_root c ++ segs)) as [E|E]; rewrite E in Ho; subst o; [discriminate|].
     simpl in Hl. rewrite strip_prefix_app in Hl.
     apply in_or_app; right. left.
@@ -686,4 +685,134 @@ Proof.
   intros c f rules url fp o loc L Hi D H Hl.
   destruct (decide_inv _ _ _ _ D) as [p [Hp _]].
   eapply all_candidates; eauto. eapply location_is_candidate; eauto.
+Qed.
+
+(* ------------------------------------------------------------------ *)
+(* C02 reachability                                                    *)
+(* ------------------------------------------------------------------ *)
+Lemma split_on_aux_app c n : ~ In c n -> forall cur s,
+  split_on_aux c cur (n ++ s) = split_on_aux c (rev n ++ cur) s.
+Proof.
+  induction n as [|a n IH]; intros Hn cur s; [reflexivity|].
+  simpl. assert (E : (a =? c)%N = false) by (apply N.eqb_neq; intro; apply Hn; left; congruence).
+  rewrite E. rewrite IH by (intro; apply Hn; right; assumption).
+  rewrite <- app_assoc. reflexivity.
+Qed.
+
+Lemma split_on_join segs : segs <> [] -> (forall n, In n segs -> ~ In ch_slash n) ->
+  split_on ch_slash (join_slash segs) = segs.
+Proof.
+  unfold split_on. induction segs as [|n r IH]; [contradiction|]. intros _ H.
+  destruct r as [|m r'].
+  - cbn [join_slash]. rewrite <- (app_nil_r n) at 1.
+    rewrite split_on_aux_app by (apply H; left; reflexivity).
+    cbn [split_on_aux]. rewrite app_nil_r, rev_involutive. reflexivity.
+  - rewrite join_slash_cons by discriminate.
+    rewrite split_on_aux_app by (apply H; left; reflexivity).
+    cbn [split_on_aux]. rewrite N.eqb_refl. rewrite app_nil_r, rev_involutive.
+    f_equal. apply IH; [discriminate|]. intros k Hk. apply H. right; assumption.
+Qed.
+
+Lemma mem_join_slash c segs : c <> ch_slash -> (forall n, In n segs -> mem c n = false) ->
+  mem c (join_slash segs) = false.
+Proof.
+  intros Hc. induction segs as [|n r IH]; intro H; [reflexivity|].
+  destruct r as [|m r']; [apply H; left; reflexivity|].
+  rewrite join_slash_cons by discriminate. rewrite mem_app, mem_cons.
+  rewrite (H n (or_introl eq_refl)). rewrite IH by (intros k Hk; apply H; right; assumption).
+  apply N.eqb_neq in Hc. rewrite Hc. reflexivity.
+Qed.
+
+Lemma canon_strict_good segs : Forall goodn segs -> forall acc, canon_strict segs acc = Some (acc ++ segs).
+Proof.
+  induction 1 as [|n r Hn Hr IH]; intro acc; simpl; [rewrite app_nil_r; reflexivity|].
+  apply goodn_tests in Hn. destruct Hn as [-> ->]. rewrite IH, <- app_assoc. reflexivity.
+Qed.
+
+Lemma fuel_1000 : (1000 <= realpath_fuel)%nat.
+Proof. apply Nat.leb_le. vm_compute. reflexivity. Qed.
+
+Lemma resolve_fully_linkfree_good f root segs :
+  linkfree f -> Forall goodn root -> Forall goodn segs -> (length (root ++ segs) < 1000)%nat ->
+  resolve_fully f root segs = FPath (root ++ segs).
+Proof.
+  intros L Gr Gs Hl. pose proof fuel_1000 as F.
+  unfold resolve_fully, realpath.
+  rewrite (join_real_linkfree_fuel f L) by (rewrite app_length in Hl; lia).
+  rewrite (lexnorm_good _ Gs).
+  rewrite (join_real_linkfree_fuel f L) by lia.
+  rewrite lexnorm_good by (apply Forall_app; auto). simpl.
+  rewrite path_eqb_refl. reflexivity.
+Qed.
+
+(* reachable_literal as stated in Props/C02.v is FALSE; two hypotheses are missing:
+   (a) the components of the document root are themselves ordinary names (not "", ".", ".."):
+       otherwise the second resolution in resolve_fully, which starts from [], rewrites the root
+       (root = [".."], segs = ["a"], f = [([".."; "a"], File "x")] gives OStatus 51 "Not found");
+   (b) no component is longer than 255 bytes (name_too_long): otherwise handle raises
+       (root = ["r"], segs = [256 x "a"] gives ORaise "oserror"). *)
+Lemma reachable_literal_partial : forall c f segs content t,
+  (forall p n, In (p, n) f -> match n with Link _ => False | _ => True end) ->
+  lstat f (s_root c ++ segs) = Some (File content) -> segs <> [] ->
+  (forall n, In n segs -> n <> [] /\ n <> dot /\ n <> dotdot /\ mem ch_slash n = false /\ mem ch_pct n = false /\ mem 0%N n = false) ->
+  (length (s_root c ++ segs) < 1000)%nat ->
+  (N.of_nat (length content) <= s_max c)%N -> decode content = Some t ->
+  (* extra (a) *) (forall n, In n (s_root c) -> n <> [] /\ n <> dot /\ n <> dotdot) ->
+  (* extra (b) *) name_too_long (s_root c ++ segs) = false ->
+  handle c f (ch_slash :: CertAuth.join_slash segs) = OServe (s_root c ++ segs) (mime_of (s_root c ++ segs)) t.
+Proof.
+  intros c f segs content t L Hf Hne Hs Hlen Hmax Hdec Hroot Hlong.
+  assert (Gs : Forall goodn segs).
+  { apply Forall_forall. intros n Hn. destruct (Hs n Hn) as [A [B [C _]]]. repeat split; assumption. }
+  assert (Gr : Forall goodn (s_root c)).
+  { apply Forall_forall. intros n Hn. apply Hroot; assumption. }
+  unfold handle.
+  assert (U : unquote (ch_slash :: join_slash segs) = Ok (ch_slash :: join_slash segs)).
+  { unfold unquote. rewrite mem_cons. rewrite mem_join_slash; [reflexivity|discriminate|].
+    intros n Hn. apply (Hs n Hn). }
+  rewrite U.
+  assert (Cm : comps (ch_slash :: join_slash segs) = [] :: segs).
+  { unfold comps, split_on. simpl. f_equal. apply (split_on_join segs Hne).
+    intros n Hn. apply mem_false_notin. apply (Hs n Hn). }
+  rewrite Cm. simpl canon_strict. rewrite (canon_strict_good _ Gs). simpl app.
+  assert (Z : existsb (mem 0%N) segs = false).
+  { destruct (existsb (mem 0%N) segs) eqn:E; [|reflexivity].
+    apply existsb_exists in E. destruct E as [x [Hx E]].
+    destruct (Hs x Hx) as [_ [_ [_ [_ [_ Hz]]]]]. congruence. }
+  rewrite Z.
+  rewrite (resolve_fully_linkfree_good f (s_root c) segs L Gr Gs Hlen).
+  rewrite path_prefixb_app. cbn [negb]. rewrite Hlong. rewrite Hf.
+  unfold serve_file. rewrite Hf.
+  assert (M : (s_max c <? N.of_nat (length content))%N = false) by lia.
+  rewrite M, Hdec. reflexivity.
+Qed.
+
+(* machine-checked refutation of the statement of Props/C02.v C02_reachable_literal (case (a)) *)
+Lemma reachable_literal_refuted :
+  ~ (forall c f segs content t,
+  (forall p n, In (p, n) f -> match n with Link _ => False | _ => True end) ->
+  lstat f (s_root c ++ segs) = Some (File content) -> segs <> [] ->
+  (forall n, In n segs -> n <> [] /\ n <> dot /\ n <> dotdot /\ mem ch_slash n = false /\ mem ch_pct n = false /\ mem 0%N n = false) ->
+  (length (s_root c ++ segs) < 1000)%nat ->
+  (N.of_nat (length content) <= s_max c)%N -> decode content = Some t ->
+  handle c f (ch_slash :: CertAuth.join_slash segs) = OServe (s_root c ++ segs) (mime_of (s_root c ++ segs)) t).
+Proof.
+  intro H.
+  specialize (H {| s_root := [dotdot]; s_indices := index_names; s_listing := true; s_max := 10%N |}
+                [([dotdot; lit "a"], File (lit "x"))] [lit "a"] (lit "x") (lit "x")).
+  assert (E := H).
+  assert (E' : handle {| s_root := [dotdot]; s_indices := index_names; s_listing := true; s_max := 10%N |}
+                 [([dotdot; lit "a"], File (lit "x"))] (ch_slash :: join_slash [lit "a"])
+               = OStatus 51 (lit "Not found")) by (vm_compute; reflexivity).
+  rewrite E' in H. clear E E'.
+  assert (X : OStatus 51 (lit "Not found") <> OServe [dotdot; lit "a"] (mime_of [dotdot; lit "a"]) (lit "x"))
+    by discriminate.
+  apply X. apply H; clear H X.
+  - intros p n [E|[]]. inversion E; subst. exact I.
+  - reflexivity.
+  - discriminate.
+  - intros n [<-|[]]. repeat split; discriminate.
+  - simpl. lia.
+  - vm_compute. discriminate.
+  - reflexivity.
 Qed.
